@@ -318,6 +318,28 @@ def run(res, tier, seed):
         c, ob = impl_pickle(cfg, o, regs2, label, random.Random(rng.getrandbits(48)), res, fresh=(i < nfresh * 3 and i % 3 == 0))
         cmds.append(c)
         obs.append(ob)
+    # several custom nodes of ONE registration with explicit entries: same arity and different entries,
+    # with nodes of another arity in between (every node must keep its own entries through a pickle)
+    for i in range(n // 10):
+        cls = rng.randrange(0, 4)
+        rns = rng.choice([0, 1])
+        cfg = (rng.randrange(2), rns, 0, ((cls, rns, 1, rng.choice([0, 1, 2])),), (), limit)
+        lid = [0]
+
+        def leaf():
+            lid[0] += 1
+            return (0, lid[0])
+
+        def cnode(a):
+            return (1, (9, cls, rng.randrange(0, 3), (2, *gen.gen_keys(rng, a, 'str'))), *[leaf() for _ in range(a)])
+        a = rng.choice([1, 2, 3])
+        kids = [cnode(a), cnode(a)] + ([cnode(a + 1)] if rng.random() < 0.4 else []) + ([cnode(a)] if rng.random() < 0.5 else [])
+        rng.shuffle(kids)
+        o = (1, (1,), *kids) if rng.random() < 0.5 else (1, (9, cls, 0, (2, *gen.gen_keys(rng, len(kids), 'str'))), *kids)
+        res.count('load_same_registration_many_entries')
+        c, ob = impl_pickle(cfg, o, cfg[3], 'same', random.Random(rng.getrandbits(48)), res, fresh=(i % 10 == 0))
+        cmds.append(c)
+        obs.append(ob)
     mod = runner.run_model(cmds)
     for c, a, b in zip(cmds, obs, mod):
         res.compare(c, a, b, 'cmd_pickle')
